@@ -701,6 +701,9 @@ func (w *Worktree) Remove(path string) (plumbing.Hash, error) {
 	fi, err := w.filesystem.Lstat(path)
 	if err != nil || !fi.IsDir() {
 		h, err = w.doRemoveFile(idx, path)
+		if err == nil {
+			err = w.removeEmptyParents(path)
+		}
 	} else {
 		_, err = w.doRemoveDirectory(idx, path)
 	}
@@ -709,6 +712,22 @@ func (w *Worktree) Remove(path string) (plumbing.Hash, error) {
 	}
 
 	return h, w.r.Storer.SetIndex(idx)
+}
+
+// removeEmptyParents removes the directories above path that the removal of
+// path has left empty, like git rm does.
+func (w *Worktree) removeEmptyParents(path string) error {
+	for dir := filepath.Dir(filepath.Clean(path)); dir != "." && dir != string(filepath.Separator); dir = filepath.Dir(dir) {
+		removed, err := removeDirIfEmpty(w.filesystem, dir)
+		if err != nil && !os.IsNotExist(err) && !errors.Is(err, syscall.ENOTDIR) {
+			return err
+		}
+		if !removed {
+			break
+		}
+	}
+
+	return nil
 }
 
 func (w *Worktree) doRemoveDirectory(idx *index.Index, directory string) (removed bool, err error) {
